@@ -181,6 +181,19 @@ def render(stmts):
     ret = [s for s in stmts if s[0] == "ret"]
     cur = lines_in
     declared = []
+    outer = set()   # variables mentioned after the end of the arena's block: declared before the block
+    if scope_end:
+        k = stmts.index(("end", "scope"))
+        for s in stmts[k + 1:]:
+            if s[0] in ("use", "drop", "ret"):
+                outer.add(s[1])
+            elif s[0] == "derive":
+                outer.add(s[3])
+            elif s[0] == "call" and s[3] is not None:
+                outer.add(s[3])
+
+    def let(v, e):
+        return f"x{v} = {e};" if v in outer else f"let mut x{v} = {e};"
     for s in stmts:
         k = s[0]
         if k == "call":
@@ -191,13 +204,13 @@ def render(stmts):
             else:
                 tags[s[1]] = tag
                 declared.append(s[1])
-                cur.append(f"x{s[1]} = {expr};" if scope_end else f"let mut x{s[1]} = {expr};")
+                cur.append(let(s[1], expr))
         elif k == "derive":
             need, expr, tag, _, _ = DERIVE[s[2]]
             tags[s[1]] = tag
             declared.append(s[1])
             e = expr.format(x=f"x{s[3]}")
-            cur.append(f"x{s[1]} = {e};" if scope_end else f"let mut x{s[1]} = {e};")
+            cur.append(let(s[1], e))
         elif k == "use":
             cur.append(f"touch(&x{s[1]});")
         elif k == "drop":
@@ -206,7 +219,7 @@ def render(stmts):
             tags[s[1]] = "src"
             declared.append(s[1])
             e = 'std::string::String::from("source text")'
-            cur.append(f"x{s[1]} = {e};" if scope_end else f"let mut x{s[1]} = {e};")
+            cur.append(let(s[1], e))
         elif k == "move":
             cur.append("let mut b = b;")
         elif k == "end" and s[1] == "drop":
@@ -221,7 +234,8 @@ def render(stmts):
     body = []
     if scope_end:
         for v in declared:
-            body.append(f"    let mut x{v};")
+            if v in outer:
+                body.append(f"    let mut x{v};")
         body.append("    {")
         body.append("        let mut b = Bump::new();")
         body += ["        " + l for l in lines_in]
@@ -316,12 +330,13 @@ class Gen:
 
     def fam_use_after_drop(self):
         self.v = 0
-        m, _ = self.holder(glue=False)
+        c, _ = self.invalidator(["drop", "scope"])
+        # a container may escape the block too (its twin is block-local); after drop(b) only plain references
+        m, _ = self.holder(glue=None if c[1] == "scope" else False)
         pool = []
         pre = self.filler(self.r.below(3), pool)
         x = self.fresh()
         mid = self.filler(self.r.below(3), pool)
-        c, _ = self.invalidator(["drop", "scope"])
         core = ("call", x, m, None)
         fam = "use-after-drop" if c[1] == "drop" else "escape-scope"
         self.add_pair(fam, pre + [core] + mid + [c, ("use", x)], pre + [core] + mid + [("use", x), c],
@@ -346,7 +361,7 @@ class Gen:
         pre = self.filler(self.r.below(3), pool)
         x = self.fresh()
         mid = self.filler(self.r.below(2), pool)
-        c, alive = self.invalidator(["reset", "drop", "iter", "move", "scope"])
+        c, alive = self.invalidator(["reset", "drop", "iter", "move"])
         post = self.filler(self.r.below(2), [], arena=alive, bind=alive)
         core = ("call", x, m, None)
         cn = c[2] if c[0] == "call" else " ".join(c)
